@@ -1,21 +1,21 @@
-(* C13 - Rendering a copyright object is a faithful fixpoint (partial: the stability of parse
-   after render is proved field class by field class - single-line, whitespace lists and single
-   copyright statements for EVERY value, line lists whose first line holds a word, multi-line
-   copyright fields when every line holds a word, the License field on names and texts in decoded
-   normal form, formatted text on policy-conformant values, extra data in decoded normal form - and an
-   extra field is proved to re-parse to exactly the text it was rendered from (the defect of the
-   pinned tree, one more space of indentation per cycle, is excluded by this theorem).  NOT
-   proved: that every
-   paragraph rendering is free of empty lines (proved for encoded formatted values only; given
-   that, the rendering is proved to split back into exactly as many paragraphs), and the
-   objects built from DEP-5 grammar documents meet the renderability conditions of the document
-   theorem; decided by co-execution and by the executable statement.  Proved: from_dict(to_dict(p)).to_dict() = to_dict(p) given the per-field stability
-   above, and - for objects meeting the stated conditions - that the rendering parses back to an
-   object with the same paragraph types and dictionary forms, whose rendering is the same text
-   again: render . parse . render = render). *)
+(* C13 - Rendering a copyright object is a faithful fixpoint.  Proved:
+   - C13_dep5_grammar: for EVERY document of the DEP-5 grammar (stated below) the object built from
+     its text renders to a text that parses back to an object with the same paragraph types and
+     dictionary forms, and that renders to the same text again (render . parse . render = render);
+   - C13_render_parse_render / C13_text_render_fixpoint: the same for every object, resp. every
+     text, meeting a computable test (spec_goodb, proved sound) - the test the model also runs on
+     every generated document;
+   - C13_from_dict_reproduces_to_dict: rebuilding a paragraph from its dictionary form reproduces it;
+   - no rendered formatted value holds an empty line; renderings without empty lines split back
+     into the same number of paragraphs; a paragraph with a value is never rendered as an empty one;
+   - class by class: parse . render . parse = parse, and the rendered value of a grammar value is
+     renderable and stable (C13_class_values).
+   The clause "the rendering never contains an empty line inside a paragraph" is proved through
+   renderability (every continuation line of every rendered value is non-blank) for the objects
+   of the grammar theorem, and for encoded formatted values in general. *)
 From Coq Require Import String.
 From Coq Require Import NArith List Bool.
-From DI Require Import Result PyStr PyStrFacts Codec CodecFacts Deb822 Debcon Copyright Grammar822 Grammar822Facts WordFacts ConserveFacts RenderFacts FromDictFacts RoundTripFacts FixpointFacts SpecCheck.
+From DI Require Import Result PyStr PyStrFacts Codec CodecFacts Deb822 Debcon Copyright Grammar822 Grammar822Facts WordFacts ConserveFacts RenderFacts FromDictFacts RoundTripFacts FixpointFacts SpecCheck ClassFacts GrammarSpec.
 Import ListNotations.
 Open Scope N_scope.
 
@@ -153,6 +153,118 @@ License: MIT
   verbatim
  license
 ") = Ok true.
+Proof. vm_compute. reflexivity. Qed.
+
+(* THE GRAMMAR THEOREM.  A document of the DEP-5 grammar (Proofs/GrammarSpec.v: dep5_doc) is a non-empty
+   list of paragraphs, separated by empty lines, each of which (dep5_para)
+   - is made of well-formed fields "Name: first line / continuation lines" (deb822 grammar of C06) whose
+     first line holds a value and whose lines hold no line-break character, under pairwise different names;
+   - is a header, Files or License paragraph by its names;
+   - gives each typed field a value of its class: one line for single-line fields; any continuation
+     lines for line lists, white-space lists and copyright statements; for formatted text (Comment,
+     Source, Disclaimer) continuation lines that are the marker " ." or a space followed by a body
+     without trailing blanks that starts with a space (verbatim) or with a character that is neither
+     white space nor a full stop, the last of them not a marker; for License a short name and,
+     optionally, a text whose first line is an ordinary line, under the same rules;
+   - may hold any further fields (extra data) with continuation lines.
+   For EVERY such document: the object built from its text renders to a text that parses back to an
+   object with the same paragraph types and the same dictionary forms, and that renders to the same
+   text again.  (spec_good is proved for every paragraph of the grammar: class by class the rendered
+   value is renderable and stable - Proofs/ClassFacts.v - and the rendered names select the same type.) *)
+Theorem C13_dep5_grammar : forall ps, dep5_doc ps ->
+  exists specs, from_text (doc_text ps) = Ok (map build specs) /\ length specs = length ps /\
+    exists ps', from_text (doc_dumps (map build specs)) = Ok ps' /\
+      Forall2 (fun p p' => p_type p' = p_type p /\ para_to_dict p' = para_to_dict p) (map build specs) ps' /\
+      doc_dumps ps' = doc_dumps (map build specs).
+Proof. exact dep5_document_fixpoint. Qed.
+Print Assumptions C13_dep5_grammar.
+
+(* rebuilding a paragraph of the grammar from its own dictionary form reproduces that dictionary form,
+   when the continuation lines of its extra fields are indented with a space.  (A TAB-indented
+   continuation line of an extra field is not restored by from_dict - the dictionary form carries
+   " \tx", the rebuilt paragraph " x": recorded finding F24, reported by the check as KNOWN-FINDING.) *)
+Theorem C13_grammar_from_dict : forall t G L, dep5_para t G ->
+  (forall g, In g G -> known_name t (gkey g) = false -> space_conts g) ->
+  let p := build (mkSpec t (Kof t G) (Eof t G) L) in
+  para_to_dict (para_from_dict t (para_to_dict p)) = para_to_dict p.
+Proof. exact grammar_from_dict. Qed.
+Print Assumptions C13_grammar_from_dict.
+
+(* per paragraph: what the theorem rests on *)
+Theorem C13_grammar_paragraph_good : forall t G L, dep5_para t G -> spec_good (mkSpec t (Kof t G) (Eof t G) L).
+Proof. exact grammar_spec_good. Qed.
+Print Assumptions C13_grammar_paragraph_good.
+
+Theorem C13_class_values : forall c g, gfield_ok g -> gclass c g ->
+  renderable (RP c (gvalue g)) /\ RP c (RP c (gvalue g)) = RP c (gvalue g).
+Proof. exact gclass_ok. Qed.
+Print Assumptions C13_class_values.
+
+(* the grammar is inhabited: a License paragraph with a multi-line text (blank-line marker, verbatim line)
+   and an extra field with a continuation line *)
+Definition C13g_lic : gfield := mkGField (lit "License") [32] (lit "MIT") [lit " text of the"; lit " ."; lit "  verbatim line"].
+Definition C13g_note : gfield := mkGField (lit "X-Note") [32] (lit "hello") [lit " world"].
+Definition C13g_para : gpara := [C13g_lic; C13g_note].
+
+Lemma C13g_lic_ok : gfield_ok C13g_lic.
+Proof.
+  split; [|split].
+  - unfold wf_gfield, C13g_lic. cbn [gf_name gf_gap gf_first gf_conts]. split; [apply name_okb_ok; vm_compute; reflexivity|].
+    split; [repeat constructor|]. split; [vm_compute; reflexivity|]. split; [vm_compute; repeat constructor|]. split; [|left; discriminate].
+    repeat (constructor; [split; [vm_compute; reflexivity|split; [vm_compute; reflexivity|vm_compute; repeat constructor]]|]). constructor.
+  - discriminate.
+  - vm_compute. repeat constructor.
+Qed.
+
+Lemma C13g_note_ok : gfield_ok C13g_note.
+Proof.
+  split; [|split].
+  - unfold wf_gfield, C13g_note. cbn [gf_name gf_gap gf_first gf_conts]. split; [apply name_okb_ok; vm_compute; reflexivity|].
+    split; [repeat constructor|]. split; [vm_compute; reflexivity|]. split; [vm_compute; repeat constructor|]. split; [|left; discriminate].
+    repeat (constructor; [split; [vm_compute; reflexivity|split; [vm_compute; reflexivity|vm_compute; repeat constructor]]|]). constructor.
+  - discriminate.
+  - vm_compute. repeat constructor.
+Qed.
+
+Lemma C13g_gcont_text : gcont (lit "  verbatim line").
+Proof.
+  right. exists (lit " verbatim line"). split; [reflexivity|]. split; [vm_compute; repeat constructor|]. split; [vm_compute; reflexivity|].
+  split; [right; vm_compute; now left|vm_compute; reflexivity].
+Qed.
+
+Lemma C13g_para_ok : dep5_para PLicense C13g_para.
+Proof.
+  constructor.
+  - constructor; [exact C13g_lic_ok|]. constructor; [exact C13g_note_ok|constructor].
+  - apply nodupb_ok. vm_compute. reflexivity.
+  - discriminate.
+  - vm_compute. reflexivity.
+  - intros g c [<-|[<-|[]]] Hin.
+    + (* License *) assert (Ec : c = FLicense).
+      { cbn [known_fields] in Hin. destruct Hin as [E|[E|[]]]; [now inversion E|]. exfalso. apply (f_equal fst) in E. vm_compute in E. discriminate E. }
+      subst c. right. exists (lit "text of the"), [lit " ."; lit "  verbatim line"]. split; [reflexivity|]. split; [discriminate|].
+      split; [vm_compute; reflexivity|]. split; [vm_compute; repeat constructor|]. split.
+      * constructor; [now left|]. constructor; [exact C13g_gcont_text|constructor].
+      * vm_compute. discriminate.
+    + (* X-Note is not a known name *) exfalso. cbn [known_fields] in Hin. destruct Hin as [E|[E|[]]]; apply (f_equal fst) in E; vm_compute in E; discriminate E.
+Qed.
+
+Example C13g_doc_ok : dep5_doc [(C13g_para, 0%nat)].
+Proof.
+  split; [discriminate|]. split.
+  - cbn [wf_doc]. split; [discriminate|]. split; [|split; [intros C; now contradiction C|exact I]].
+    constructor; [apply C13g_lic_ok|]. constructor; [apply C13g_note_ok|constructor].
+  - constructor; [|constructor]. exists PLicense. exact C13g_para_ok.
+Qed.
+
+
+Example C13g_text : doc_text [(C13g_para, 0%nat)] = lit "License: MIT
+ text of the
+ .
+  verbatim line
+X-Note: hello
+ world
+".
 Proof. vm_compute. reflexivity. Qed.
 
 (* a paragraph with a value to render is rendered in the general way (never as the bare "Files: " or
